@@ -435,6 +435,12 @@ fn main() {
         println!("{}", progs.len());
         return;
     }
+    if args.iter().any(|a| a == "--describe") {
+        let i: usize = arg(&args, "--from").and_then(|s| s.parse().ok()).unwrap_or(0);
+        let p = &progs[i];
+        println!("{}", serde_json::json!({"threads": format!("{:?}", p.threads), "main": format!("{:?}", p.main_ops), "preemption_bound": p.pb}));
+        return;
+    }
     let variant: usize = arg(&args, "--variant").and_then(|s| s.parse().ok()).unwrap_or(0);
     let from: usize = arg(&args, "--from").and_then(|s| s.parse().ok()).unwrap_or(0);
     let to: usize = arg(&args, "--to").and_then(|s| s.parse().ok()).unwrap_or(progs.len()).min(progs.len());
